@@ -120,3 +120,56 @@ Lemma three_pipelines_lemma : forall T d,
   rsim gsim (load_doc rf_go T FYaml d) (load_doc rf_go T FJson d) /\
   rsim gsim (load_doc rf_go T FToml d) (load_doc rf_go T FJson d).
 Proof. intros T d Hf Hl Hp. split; apply load_sim; auto; discriminate. Qed.
+
+(* ------------------------------------------------------------------ expansion touches only '$' *)
+
+Fixpoint has_dollar (s : string) : bool :=
+  match s with
+  | EmptyString => false
+  | String c r => Ascii.eqb c "$"%char || has_dollar r
+  end.
+
+Lemma expand_no_dollar : forall fuel env s, has_dollar s = false -> expand fuel env s = s.
+Proof.
+  induction fuel as [|n IH]; intros env s H; [reflexivity|].
+  destruct s as [|c r]; [reflexivity|].
+  cbn [has_dollar] in H. apply orb_false_iff in H. destruct H as [Hc Hr].
+  destruct c as [[] [] [] [] [] [] [] []]; try discriminate Hc; cbn [expand]; rewrite (IH env r Hr); reflexivity.
+Qed.
+
+Fixpoint doc_has_dollar (d : doc) : bool :=
+  match d with
+  | DStr s => has_dollar s
+  | DList l => docs_has_dollar l
+  | DMap m => dmap_has_dollar m
+  | _ => false
+  end
+with docs_has_dollar (l : docs) : bool :=
+  match l with DLnil => false | DLcons d r => doc_has_dollar d || docs_has_dollar r end
+with dmap_has_dollar (m : dmap) : bool :=
+  match m with DMnil => false | DMcons k d r => has_dollar k || doc_has_dollar d || dmap_has_dollar r end.
+
+(* a document without a '$' in any key or string value is its own expansion, whatever the
+   environment: for such documents conf.UseEnv() changes nothing *)
+Lemma expand_doc_no_dollar :
+  (forall d env, doc_has_dollar d = false -> expand_doc env d = d) /\
+  (forall l env, docs_has_dollar l = false -> expand_list env l = l) /\
+  (forall m env, dmap_has_dollar m = false -> expand_map env m = m).
+Proof.
+  apply doc_docs_dmap_ind; try reflexivity.
+  - intros s env H. cbn [expand_doc]. unfold expand_str. rewrite expand_no_dollar; auto.
+  - intros l IH env H. cbn [expand_doc]. rewrite IH; auto.
+  - intros m IH env H. cbn [expand_doc]. rewrite IH; auto.
+  - intros d IHd l IHl env H. cbn [docs_has_dollar] in H. apply orb_false_iff in H. destruct H as [H1 H2].
+    cbn [expand_list]. rewrite IHd, IHl; auto.
+  - intros k d IHd m IHm env H. cbn [dmap_has_dollar] in H. apply orb_false_iff in H. destruct H as [H H3].
+    apply orb_false_iff in H. destruct H as [H1 H2].
+    cbn [expand_map]. unfold expand_str. rewrite expand_no_dollar, IHd, IHm; auto.
+Qed.
+
+Lemma use_env_irrelevant_without_dollar : forall rf T f env d use_env,
+  doc_has_dollar d = false -> load_file rf T f use_env env d = load_doc rf T f d.
+Proof.
+  intros rf T f env d use_env H. unfold load_file. destruct use_env; [|reflexivity].
+  destruct expand_doc_no_dollar as [E _]. rewrite E; auto.
+Qed.
